@@ -342,12 +342,13 @@ PROPS["C20"] = dict(
                "(partial): they are compared with the proved BFS result on every generated case.")
 
 PROPS["C13"] = dict(
-    gens=[("reorder", gen.gen_C13, 1.0)], quick=50, thorough=500,
+    gens=[("reorder", gen.gen_C13, 0.7), ("shared-order", gen.gen_C13_shared, 0.4)], quick=50, thorough=500,
     level_text="Proved: the reordered diagram (canonical diagram of the function of the renamed variables) "
                "evaluates to the original function at the permuted assignment and is reduced, for any permutation "
                "and rule. Tie: reorderVariables with all 8 heuristics x 2 swap methods on forests with several "
                "live edges and warm caches; every held edge re-shown (table + canonical dump), the audit of the "
-               "reordered forest, and the dumps of the other forests of the domain.",
+               "reordered forest, and the dumps and variable orders of the other forests of the domain "
+               "(including forests that were brought to the same order and so share the order object).",
     level_note=_MODELLED + "The in-place swap algorithms (mtmdd/mtmxd swapAdjacent*) and the scheduling "
                "heuristics are not mirrored: the model recomputes the canonical diagram; EV+ not covered yet.")
 
